@@ -4,7 +4,8 @@ import numpy as np
 from vlib import caseio, gen
 
 ID = "C16"
-COQ_TARGETS = ["C16_Extract.vo", "C16_ProofsSM.vo", "C16_Proofs.vo", "C16_Regress.vo"]
+COQ_TARGETS = ["C16_Extract.vo", "C16_ProofsSM.vo", "C16_Proofs.vo", "C16_Regress.vo", "C16_Transport.vo"]
+COQ_PREFIXES = ["C16", "C01", "C02"]      # C16_Transport imports UT_Transport (shared), C01_Transport (density), C02_Transport (repr)
 EXTRACTED = "C16_model"
 DRIVER = "drv_C16.ml"
 HARNESS = "h_C16.cpp"
@@ -19,37 +20,67 @@ REQUIRED_THEOREMS = ["C16_state_dimension", "C16_F_closed_form", "C16_Q_closed_f
                      "C16_sensor_draws", "C16_trajectory", "C16_trajectory_recurrence", "C16_serving_state", "C16_serving",
                      "C16_reset_restarts", "C16_call_output", "C16_zero_length_has_no_state",
                      "C16_grid_refusal", "C16_grid_positions", "C16_grid_spans", "C16_grid_weights", "C16_grid_overwrites",
-                     "C16_sensor_noise_cov", "C16_sensor_descriptions", "C16_factor_exists"]
-RULE = ("corpus props/C16_corpus/*.case first, then cases drawn from one seeded stream; kinds: wna (Dim in {1,2,3}, T in [0.001,10] i.e. cond(Q) up to ~1e7, q in [0.01,100], seed or the default-seed constructor, a script of 3-7 calls "
-        "among getNoiseSample(0..5), motion (0..4 columns), getTransitionProbability (0..6 pairs)); wna_stat / lin_stat (empirical moments of 1e4 .. 2e4 samples, motions and sensor residuals); lti_state / lti_meas (all shape "
-        "classes: 0 x k, k x 0, non-square, mismatched, valid); linmodel (state size 0..6, 0..6 indices incl. out-of-range and repeated, "
-        "R valid / empty / non-square / mismatched); sim (trajectory length 1..50, call sequences with calls past the end and resets); "
-        "sensor (same over a component-selecting sensor); grid (2..6 x 2..6 and a few degenerate 1 x k, right and wrong particle counts, both constructors). "
-        "non-trivial = every case except a valid-shape constructor call; distinct by (kind, Dim or shape class or outcome, size bucket)")
+                     "C16_sensor_noise_cov", "C16_sensor_descriptions", "C16_factor_exists",
+                     "C16_grid_rows_refusal", "C16_grid_rows_four",
+                     "C16_executed_F_is_theorem_model", "C16_executed_Q_is_theorem_model", "C16_executed_sqrtQ_is_theorem_model",
+                     "C16_executed_noise_sample_is_theorem_model", "C16_executed_motion_is_theorem_model",
+                     "C16_executed_transition_density_is_theorem_model", "C16_executed_spec_density_is_theorem_model",
+                     "C16_executed_factor_contract_is_theorem_model", "C16_executed_lti_state_ctor_is_theorem_model",
+                     "C16_executed_lti_meas_ctor_is_theorem_model", "C16_executed_selector_is_theorem_model",
+                     "C16_executed_sensor_noise_is_theorem_model", "C16_executed_trajectory_is_theorem_model",
+                     "C16_executed_trajectory_columns_is_theorem_model", "C16_executed_serving_is_theorem_model",
+                     "C16_executed_sensor_output_is_theorem_model", "C16_executed_sensor_descriptions_is_theorem_model",
+                     "C16_executed_grid_is_theorem_model"]
+RULE = ("corpus props/C16_corpus/*.case first, then cases drawn from one seeded stream; kinds: wna (Dim in {1,2,3}; T and q log-uniform over 1e-6 .. 1e6 (three quarters of the cases) or "
+        "T in [0.001,10], q in [0.01,100]; states in the model's own units: position sigma sqrt(q T^3/3), velocity sigma sqrt(q T), times 10^[0,4]; seed or the default-seed "
+        "constructor; a script of 3-8 operations on ONE object among getNoiseSample(0..5), motion (0..4 columns; plain or through strided blocks of larger matrices), "
+        "getTransitionProbability (0..6 pairs; plain or strided), setSamplingTime(other T), and replacement of the subject by the object obtained from it by move construction / "
+        "move assignment onto a used model of other Dim, T, q / growth of a std::vector, each followed by the getters; optionally an independent twin model run inside every virtual "
+        "callback and between the calls (intrude), and three models used from three threads (conc)); wna_stat / lin_stat (empirical moments of 1e4 .. 2e4 samples, motions and sensor "
+        "residuals, same magnitudes, coordinate-wise units for R); lti_state / lti_meas (all shape classes: 0 x k, k x 0, non-square, mismatched, valid; valid LTIStateModel objects "
+        "obtained fresh / by move construction / move assignment onto a model of another size / self-move-assignment / vector growth / a chain of these, then setSamplingTime); "
+        "linmodel (state size 0..6, 0..6 indices incl. out-of-range and repeated, R valid (coordinate-wise units over 12 orders) / empty / non-square / mismatched; optionally a twin "
+        "model drawing between the calls); sim (trajectory length 1..50, state model optionally used and then move-constructed, random and structured call histories: partial pass, "
+        "reset, full pass, calls past the end, reset again, resets in a row, unknown properties; optionally a twin trajectory / sensor used inside the callbacks); sensor (same over a "
+        "component-selecting sensor); grid (2..6 x 2..6 and a few degenerate 1 x k, right and wrong particle counts, both constructors, areas from 1e-6 to 1e6 wide with offsets up to "
+        "1e6 widths); gridseq (two initialisers alive at once, one of them a copy, applied 3-8 times in any order to a pool of particle sets of several sizes, 2..6 state rows and "
+        "linear / circular / quaternion / noise-row layouts, refilled or left as the previous call left them). "
+        "non-trivial = every case except a valid-shape constructor call on a fresh object; distinct by (kind, Dim or shape class or outcome, size bucket, magnitudes, operations)")
 TRUSTED_BASE = ["Coq 8.16.1 kernel (coqc); no axioms (Print Assumptions: closed under the global context)",
                 "MathComp 1.15 matrix theory",
                 "extraction (ExtrOcamlBasic only) and ocaml/float_ops.ml, ocaml/drv_C16.ml, ocaml/caseio.ml",
-                "ListOps list instance of MatOps (structural operations and Gauss-Jordan inverse/determinant, unproved)",
+                "the list instance of the matrix interface is NOT trusted for the functions that are run: C16_Transport.v (theorems C16_executed_*) proves that every extracted entry point, "
+                "over the scalars of any real field and for any list-level square-root oracle corresponding on the matrix factored, represents the MathComp model of the theorems "
+                "(Gauss-Jordan inverse/determinant via ListGauss.v, Q proved invertible); what remains between executed model and theorem model is IEEE rounding",
                 "cpp/h_C16.cpp harness incl. its mirror of std::mt19937_64(seed) + std::normal_distribution<double>(0,1) and the "
                 "observation of the private factor sqrt_Q_ as getNoiseSample(d) * Z^-1 on the instance under test (first call; probes with cond(Z) > 1e6 are rejected and counted)",
-                "comparison tolerances: closed forms rtol 1e-12, samples / trajectories rtol 1e-9, densities 1e-13*cond(Q) on the log scale (1e-11*cond(Q) against numpy), empirical moments %.1f sigma" % 5.5,
+                "comparison tolerances, all relative to the case and component-wise (units): closed forms 16 eps per entry; samples / motions / trajectories / measurements the forward-error "
+                "bound of the products, c eps (|F||x| + |L_i||z|) with the probe's conditioning, accumulated along a trajectory; densities on the log scale "
+                "c eps (cond of the equilibrated Q) (d + Mahalanobis) plus the cancellation in cur - F prev measured in sigmas (pairs whose bound exceeds 0.05 are excluded and counted); "
+                "grid 8 eps (|inf| + |sup|); empirical moments %.1f sigma" % 5.5,
                 "correspondence is sampled: agreement is established on the generated cases only",
                 "IEEE rounding is not modelled (theorems over an exact real field); std::pow(T,3.0), std::pow(T,2.0) are transcribed as T*T*T, T*T"]
 ASSUMPTIONS = ["RNG: the draws of std::normal_distribution<double>(0,1) over std::mt19937_64(seed) are independent standard normal, "
                "E[Z Z^T] = I; the theorem C16_noise_cov is the algebraic identity L (Z Z^T) L^T = Q under Z Z^T = I, L L^T = Q",
                "LDLT factor contract, local form: sqrt_Q_ sqrt_Q_^T = Q_ and sqrt_R_ sqrt_R_^T = R_ for the matrices at hand (premise of "
                "C16_noise_cov / C16_sensor_noise_cov; Q proved SPD for T, q > 0; a factor proved to exist in every real closed field; "
-               "checked at run time on every case on the factor observed on the implementation)",
+               "checked at run time on every case on the factor observed on the implementation, entry (i,j) relative to sqrt(Q_ii Q_jj))",
                "Eigen inverse()/determinant() behave as matrix inverse/determinant up to rounding (Gaussian density)",
                "WhiteNoiseAcceleration is used without an exogenous model and not skipping (the skip branches of LinearStateModel::propagate are C13's)",
-               "InitSurveillanceAreaGrid::initialize is applied to a particle set with 4 state rows"]
+               "setSamplingTime is the base-class no-op for every shipped model: the sampling interval of the closed forms is the constructor's",
+               "distinct objects may be used from distinct threads; one object is used from one thread"]
 
-COUNTS = {"quick": {"wna": 90, "lti_state": 60, "lti_meas": 50, "linmodel": 70, "sim": 40, "sensor": 40, "grid": 50, "wna_stat": 8, "lin_stat": 6},
-          "thorough": {"wna": 2500, "lti_state": 1500, "lti_meas": 1200, "linmodel": 2000, "sim": 900, "sensor": 900, "grid": 1000, "wna_stat": 100, "lin_stat": 60}}
+COUNTS = {"quick": {"wna": 900, "lti_state": 200, "lti_meas": 100, "linmodel": 200, "sim": 250, "sensor": 250, "grid": 200, "gridseq": 200, "ltisim": 250, "wna_stat": 20, "lin_stat": 12},
+          "thorough": {"wna": 4000, "lti_state": 1800, "lti_meas": 1200, "linmodel": 2200, "sim": 1400, "sensor": 1400, "grid": 1200, "gridseq": 900, "ltisim": 1400, "wna_stat": 120, "lin_stat": 70}}
+EPS = 2.220446049250313e-16
 DIMNAME = {1: "OneD", 2: "TwoD", 3: "ThreeD"}
 
 
 # ---------------------------------------------------------------- closed forms (spec level, numpy)
+
+def _geti(c, name, default=0):
+    return c.get(name) if c.has(name) else default
+
 
 def F_closed(dim, T):
     return np.kron(np.eye(dim), np.array([[1.0, T], [0.0, 1.0]]))
@@ -72,42 +103,89 @@ def log_gauss(x, mean, S):
 
 # ---------------------------------------------------------------- generators
 
+def _mag(rng, lo, hi):
+    return float("%.6g" % (10 ** rng.uniform(lo, hi)))
+
+
 def _wna_params(rng):
+    """T and q over twelve orders of magnitude for every Dim (three quarters of the cases), else the moderate range"""
     dim = rng.choice([1, 2, 3])
-    T = float("%.6g" % (10 ** rng.uniform(-3.0, 1.0)))        # cond(Q) ~ 12/T^2 up to ~1e7
-    q = float("%.6g" % (10 ** rng.uniform(-2.0, 2.0)))
+    if rng.random() < 0.75:
+        T, q = _mag(rng, -6.0, 6.0), _mag(rng, -6.0, 6.0)
+        if rng.random() < 0.15:
+            T = rng.choice([1e-6, 1e6, 1.0, 1.5, 2.0 ** -10, 2.0 ** 12])      # ends of the range, the pivoting threshold T = 1.5, powers of two
+        if rng.random() < 0.1:
+            q = rng.choice([1e-6, 1e6, 1.0])
+    else:
+        T, q = _mag(rng, -3.0, 1.0), _mag(rng, -2.0, 2.0)
     return dim, T, q, rng.getrandbits(31)
+
+
+def sigmas(dim, T, q):
+    """the model's own units: standard deviations of the position / velocity noise"""
+    return np.array([math.sqrt(q * T ** 3 / 3.0), math.sqrt(q * T)] * dim)
+
+
+def chol_Q(dim, T, q):
+    """lower Cholesky factor of Q, computed on the equilibrated 2x2 block (exact scaling by the units)"""
+    L0 = np.linalg.cholesky(np.array([[1.0, math.sqrt(3.0) / 2.0], [math.sqrt(3.0) / 2.0, 1.0]]))
+    return np.kron(np.eye(dim), np.diag(sigmas(1, T, q)) @ L0)
+
+
+def _states(rng, dim, T, q, cols, hi=4.0):
+    """state columns in the model's units times 10^[0, hi], per case or per coordinate"""
+    sig = sigmas(dim, T, q)
+    d = 2 * dim
+    u = rng.random()
+    if u < 0.1:
+        return np.zeros((d, cols))
+    if u < 0.6:
+        scale = np.full(d, 10 ** rng.uniform(0.0, hi))
+    else:
+        scale = np.array([10 ** rng.uniform(0.0, hi) for _ in range(d)])
+    return (sig * scale)[:, None] * gen.matrix(rng, d, cols)
 
 
 def gen_wna(rng, k):
     dim, T, q, seed = _wna_params(rng)
     d = 2 * dim
     F, Q = F_closed(dim, T), Q_closed(dim, T, q)
-    c = caseio.Case(k, "wna", {"dim": dim, "T": T, "q": q, "cond": "%.3g" % np.linalg.cond(Q)})
+    c = caseio.Case(k, "wna", {"dim": dim, "T": T, "q": q})
     defseed = int(rng.random() < 0.12)         # the constructor without a seed argument (documented default: 1)
     c.int("dim", dim).mat("Tq", [[T, q]]).int("seed", 1 if defseed else seed).int("defseed", defseed)
     c.meta["defseed"] = defseed
+    intrude, conc = int(rng.random() < 0.35), int(rng.random() < 0.12)
+    dim2 = rng.choice([1, 2, 3])
+    c.int("intrude", intrude).int("conc", conc)
+    c.mat("Tq2", [[_mag(rng, -6.0, 6.0), _mag(rng, -6.0, 6.0)]]).int("seed2", rng.getrandbits(31)).int("pre2", rng.choice([0, 1, 3])).int("dim2", dim2)
     script, mats = [], []
-    for i in range(rng.randint(3, 7)):
-        op = rng.choice("nnmtt")
+    nops = rng.randint(3, 8)
+    moves = rng.random() < 0.45
+    Lc = chol_Q(dim, T, q)
+    for i in range(nops):
+        op = rng.choice("nnmbttus") if not (moves and (i == 0 and rng.random() < 0.5 or rng.random() < 0.2)) else rng.choice("ccaav")
         if op == "n":
             script.append("n%d" % rng.choice([0, 1, 1, 2, 3, 4, 5]))
-        elif op == "m":
+        elif op in "mb":
             cols = rng.choice([0, 1, 1, 2, 3, 4])
-            script.append("m%d" % i); mats.append(("X%d" % i, gen.matrix(rng, d, cols, 3.0)))
-        else:
+            script.append("%s%d" % (op, i)); mats.append(("X%d" % i, _states(rng, dim, T, q, cols)))
+        elif op in "tu":
             cols = rng.choice([0, 1, 2, 3, 4, 5, 6])
-            prev = gen.matrix(rng, d, cols, 2.0)
-            Lc = np.linalg.cholesky(Q)
-            spread = rng.choice([0.0, 0.5, 1.0, 2.0, 6.0])
+            prev = _states(rng, dim, T, q, cols, hi=rng.choice([2.0, 4.0, 6.0]))
+            spread = rng.choice([0.0, 0.5, 1.0, 2.0, 6.0, 25.0])
             cur = F @ prev + spread * (Lc @ gen.matrix(rng, d, cols))
-            if rng.random() < 0.15:
-                cur = gen.matrix(rng, d, cols, 2.0)          # unrelated pair: tiny or vanishing density
-            script.append("t%d" % i); mats.append(("P%d" % i, prev)); mats.append(("C%d" % i, cur))
+            if rng.random() < 0.12:
+                cur = _states(rng, dim, T, q, cols)          # unrelated pair: tiny or vanishing density
+            script.append("%s%d" % (op, i)); mats.append(("P%d" % i, prev)); mats.append(("C%d" % i, cur))
+        elif op == "s":
+            script.append("s%d" % i); mats.append(("S%d" % i, np.array([[_mag(rng, -6.0, 6.0)]])))
+        else:
+            script.append("%s%d" % (op, i))
     c.word("script", script)
     for name, a in mats:
         c.mat_shape(name, a.shape[0], a.shape[1], a)
     c.meta["ops"] = "".join(s[0] for s in script)
+    c.meta["intrude"], c.meta["conc"] = intrude, conc
     return c
 
 
@@ -151,8 +229,12 @@ def _shape_class(rng, square_first):
 
 def gen_lti_state(rng, k):
     fr, fc, qr, qc = _shape_class(rng, True)
-    c = caseio.Case(k, "lti_state", {"fr": fr, "fc": fc, "qr": qr, "qc": qc})
-    c.mat_shape("F", fr, fc, gen.matrix(rng, fr, fc)).mat_shape("Q", qr, qc, gen.matrix(rng, qr, qc))
+    how = rng.choice(["fresh", "move_ctor", "move_assign", "move_assign", "self_assign", "vector", "chain"])
+    c = caseio.Case(k, "lti_state", {"fr": fr, "fc": fc, "qr": qr, "qc": qc, "how": how})
+    unit = 10 ** rng.uniform(-6, 6) if rng.random() < 0.5 else 1.0
+    c.mat_shape("F", fr, fc, gen.matrix(rng, fr, fc)).mat_shape("Q", qr, qc, unit * gen.matrix(rng, qr, qc))
+    n2 = rng.choice([x for x in range(1, 7) if x != fr] + ([fr] if fr >= 1 else []))      # the other object: mostly another size
+    c.word("how", [how]).mat_shape("F2", n2, n2, gen.matrix(rng, n2, n2)).mat_shape("Q2", n2, n2, gen.matrix(rng, n2, n2))
     return c
 
 
@@ -179,12 +261,28 @@ def _indices(rng, n, valid):
     return idxs
 
 
+def _units(rng, m):
+    """coordinate-wise units over twelve orders (half of the cases), one common unit, or none"""
+    u = rng.random()
+    if u < 0.5:
+        return np.array([10 ** rng.uniform(-6, 6) for _ in range(m)])
+    if u < 0.75:
+        return np.full(m, 10 ** rng.uniform(-6, 6))
+    return np.ones(m)
+
+
+def _spd_units(rng, m):
+    R0, _ = gen.spd(rng, m, 10 ** rng.uniform(0, 3))
+    D = _units(rng, m)
+    R = R0 * np.outer(D, D)
+    return (R + R.T) / 2
+
+
 def _noise_cov(rng, m, valid):
     if valid or rng.random() < 0.65:
         if m == 0:
             return np.zeros((0, 0)), 0, 0
-        R, _ = gen.spd(rng, m, 10 ** rng.uniform(0, 3))
-        return R, m, m
+        return _spd_units(rng, m), m, m
     cls = rng.choice(["smaller", "larger", "nonsquare", "empty", "random"])
     if cls == "smaller" and m > 1:
         rr = rc = rng.randint(1, m - 1)
@@ -197,8 +295,7 @@ def _noise_cov(rng, m, valid):
     else:
         rr, rc = rng.randint(0, 5), rng.randint(0, 5)
     if rr == rc and rr > 0:
-        R, _ = gen.spd(rng, rr, 10 ** rng.uniform(0, 3))
-        return R, rr, rc
+        return _spd_units(rng, rr), rr, rc
     return gen.matrix(rng, rr, rc), rr, rc
 
 
@@ -209,7 +306,8 @@ def gen_linmodel(rng, k):
     defseed = int(rng.random() < 0.12)
     c = caseio.Case(k, "linmodel", {"n": n, "m": len(idxs), "rr": rr, "rc": rc, "defseed": defseed})
     c.int("n", n).word("idxs", idxs).mat_shape("R", rr, rc, R).int("seed", 1 if defseed else rng.getrandbits(31)).int("defseed", defseed)
-    c.word("nums", [rng.choice([0, 1, 2, 3, 4, 5]) for _ in range(rng.randint(1, 3))])
+    c.word("nums", [rng.choice([0, 1, 2, 3, 4, 5]) for _ in range(rng.randint(1, 4))])
+    c.int("interleave", int(rng.random() < 0.4)).int("conc", int(rng.random() < 0.15))
     return c
 
 
@@ -227,6 +325,29 @@ def _ops(rng, len_, a):
     return ops
 
 
+def _history(rng, len_, a):
+    """structured histories: partial pass, reset, full pass, calls past the end, reset again, resets in a row, unknown
+    properties in the middle, nothing but resets"""
+    part = rng.randint(0, max(0, len_ - 1))
+    kind = rng.choice(["partial_reset_full", "full_past_reset_past", "reset_first", "resets_in_a_row", "partial_twice", "other_in_the_middle", "exhaust_twice"])
+    if kind == "partial_reset_full":
+        ops = [a] * part + ["r"] + [a] * len_ + [a, a] + ["r"] + [a] * rng.randint(1, 3)
+    elif kind == "full_past_reset_past":
+        ops = [a] * (len_ + rng.randint(1, 3)) + ["r"] + [a] * (len_ + 2)
+    elif kind == "reset_first":
+        ops = ["r"] + [a] * rng.randint(1, len_ + 1) + ["r", "r"] + [a] * rng.randint(1, 2)
+    elif kind == "resets_in_a_row":
+        ops = [a] * part + ["r", "r", "r"] + [a] * rng.randint(1, len_ + 1)
+    elif kind == "partial_twice":
+        p2 = rng.randint(0, max(0, len_ - 1))
+        ops = [a] * part + ["r"] + [a] * p2 + ["r"] + [a] * (len_ + 1)
+    elif kind == "other_in_the_middle":
+        ops = [a] * part + ["o"] + [a] * rng.randint(0, 2) + ["o", "r", "o"] + [a] * rng.randint(1, len_ + 1)
+    else:
+        ops = [a] * (len_ + 1) + ["r"] + [a] * (len_ + 1) + ["r"] + [a]
+    return ops[:140], kind
+
+
 def gen_sim(rng, k, sensor=False):
     dim, T, q, seed = _wna_params(rng)
     d = 2 * dim
@@ -234,26 +355,34 @@ def gen_sim(rng, k, sensor=False):
     c = caseio.Case(k, "sensor" if sensor else "sim", {"dim": dim, "T": T, "q": q, "len": len_})
     defseed = int(rng.random() < 0.1)
     c.int("dim", dim).mat("Tq", [[T, q]]).int("seed", 1 if defseed else seed).int("defseed", defseed)
-    c.mat_shape("x0", d, 1, gen.matrix(rng, d, 1, 5.0)).int("len", len_)
+    x0 = _states(rng, dim, T, q, 1) if rng.random() < 0.8 else gen.matrix(rng, d, 1, 5.0)
+    c.mat_shape("x0", d, 1, x0).int("len", len_)
+    premove, intrude = rng.choice([-1, -1, 0, 1, 3]), int(rng.random() < 0.35)
+    c.int("premove", premove).int("intrude", intrude).int("conc", int(rng.random() < 0.12))
+    c.meta["premove"], c.meta["intrude"] = premove, intrude
     if sensor:
         idxs = _indices(rng, d, True)
         R, rr, rc = _noise_cov(rng, len(idxs), True)
         defseed2 = int(rng.random() < 0.15)
         c.word("idxs", idxs).mat_shape("R", rr, rc, R).int("seed2", 1 if defseed2 else rng.getrandbits(31)).int("defseed2", defseed2)
         c.meta.update({"m": len(idxs), "rr": rr, "rc": rc})
-    ops = _ops(rng, len_, "f" if sensor else "b")
+    if rng.random() < 0.5:
+        ops, hist = _history(rng, len_, "f" if sensor else "b")
+    else:
+        ops, hist = _ops(rng, len_, "f" if sensor else "b"), "random"
     c.word("ops", ops)
-    c.meta["nops"] = len(ops)
+    c.meta["nops"] = len(ops); c.meta["hist"] = hist
     return c
 
 
 def gen_wna_stat(rng, k, tier="quick"):
     """empirical moments of many samples: the mirror-free form of 'covariance Q'"""
     dim = rng.choice([1, 2, 3])
-    T = float("%.6g" % (10 ** rng.uniform(-1.0, 1.0))); q = float("%.6g" % (10 ** rng.uniform(-2.0, 2.0)))
+    T, q = _mag(rng, -6.0, 6.0), _mag(rng, -6.0, 6.0)
     N = 10000 if tier == "quick" else 20000
     c = caseio.Case(k, "wna_stat", {"dim": dim, "T": T, "q": q, "N": N})
-    c.int("dim", dim).mat("Tq", [[T, q]]).int("seed", rng.getrandbits(31)).int("N", N).mat_shape("x", 2 * dim, 1, gen.matrix(rng, 2 * dim, 1, 3.0))
+    x = _states(rng, dim, T, q, 1, hi=3.0)
+    c.int("dim", dim).mat("Tq", [[T, q]]).int("seed", rng.getrandbits(31)).int("N", N).mat_shape("x", 2 * dim, 1, x)
     return c
 
 
@@ -267,6 +396,93 @@ def gen_lin_stat(rng, k, tier="quick"):
     return c
 
 
+def gen_ltisim(rng, k):
+    """SimulatedStateModel (and a linear sensor) over a USER-DEFINED additive linear model: an LTIStateModel with linear and
+    circular state components, coordinate-wise units, whose noise samples are given columns (no random numbers)"""
+    lin, circ = rng.randint(0, 4), rng.randint(0, 3)
+    if lin + circ == 0:
+        lin = 1
+    n = lin + circ
+    D = _units(rng, n)
+    F0 = gen.matrix(rng, n, n, rng.choice([0.3, 1.0, 1.0, 3.0])) if rng.random() < 0.8 else np.eye(n)
+    F = F0 * np.outer(D, 1.0 / D)
+    len_ = rng.randint(1, 12)
+    x0 = D[:, None] * gen.matrix(rng, n, 1, 3.0)
+    W = D[:, None] * gen.matrix(rng, n, len_ - 1, 10 ** rng.uniform(-3, 1))
+    sensor = int(rng.random() < 0.6)
+    how = rng.choice(["fresh", "move_ctor", "move_assign"])
+    c = caseio.Case(k, "ltisim", {"lin": lin, "circ": circ, "len": len_, "sensor": sensor, "how": how})
+    c.int("lin", lin).int("circ", circ).mat_shape("F", n, n, F).mat_shape("Q", n, n, _spd_units(rng, n)).mat_shape("W", n, len_ - 1, W)
+    c.mat_shape("x0", n, 1, x0).int("len", len_).word("how", [how]).int("sensor", sensor)
+    n2 = rng.randint(1, 5)
+    c.mat_shape("F2", n2, n2, gen.matrix(rng, n2, n2)).mat_shape("Q2", n2, n2, gen.matrix(rng, n2, n2))
+    idxs = _indices(rng, n, True)
+    R, rr, rc = _noise_cov(rng, len(idxs), True)
+    c.word("idxs", idxs).mat_shape("R", rr, rc, R).int("seed2", rng.getrandbits(31))
+    c.meta.update({"m": len(idxs), "rr": rr, "rc": rc})
+    a = "f" if sensor else "b"
+    ops, hist = _history(rng, len_, a) if rng.random() < 0.6 else (_ops(rng, len_, a), "random")
+    c.word("ops", ops)
+    c.meta["hist"] = hist
+    return c
+
+
+def _interval(rng):
+    """an interval of width 10^[-6, 6] whose lower end is offset by up to 1e6 widths (half of the cases), or one of order ten"""
+    if rng.random() < 0.5:
+        return sorted([rng.uniform(-20, 20), rng.uniform(-20, 20)])
+    w = 10 ** rng.uniform(-6, 6)
+    off = rng.choice([0.0, rng.uniform(-1, 1) * w, rng.uniform(-1, 1) * w * 10 ** rng.uniform(0, 6)])
+    return [off, off + w]
+
+
+def _area(rng):
+    area = _interval(rng) + _interval(rng)
+    if rng.random() < 0.15:
+        area[0], area[1] = area[1], area[0]            # inverted interval: still the documented formula
+    return area
+
+
+LAYOUT_MIN_ROWS = {"lin": 1, "lincirc": 1, "quat": 4, "linnoise": 3}
+
+
+def gen_gridseq(rng, k):
+    """two initialisers alive at once, a pool of particle sets, 3-8 calls in any order; most sets have 4 rows and
+    the right size for one of the initialisers (so that most calls do initialise)"""
+    c = caseio.Case(k, "gridseq", {})
+    dims = []
+    for i in range(2):
+        nx, ny = rng.randint(2, 5), rng.randint(2, 5)
+        dims.append((nx, ny))
+        c.mat("area%d" % i, [_area(rng)]).int("nx%d" % i, nx).int("ny%d" % i, ny).int("ctor4_%d" % i, int(rng.random() < 0.3))
+    if rng.random() < 0.3:                     # equal particle counts, different shapes / areas: a cached grid would be reused wrongly
+        nx, ny = dims[0]
+        dims[1] = (ny, nx) if rng.random() < 0.5 else (nx, ny)
+        c.ops = [(t, n, (dims[1][0] if n == "nx1" else dims[1][1] if n == "ny1" else v)) for t, n, v in c.ops]
+    c.int("copy1", int(rng.random() < 0.5)).int("conc", int(rng.random() < 0.15))
+    nsets = rng.randint(1, 3)
+    c.int("nsets", nsets)
+    sets = []
+    for s_ in range(nsets):
+        u = rng.random()
+        rows = 4 if u < 0.75 else rng.choice([2, 3, 5, 6])
+        layout = rng.choice([l for l, m in LAYOUT_MIN_ROWS.items() if rows >= m and not (l == "lincirc" and rows < 2)])
+        nx, ny = dims[rng.randrange(2)]
+        np_ = nx * ny if rng.random() < 0.8 else max(1, rng.choice([nx * ny - 1, nx * ny + 1, nx + ny]))
+        sets.append((rows, np_))
+        c.int("rows%d" % s_, rows).int("np%d" % s_, np_).word("layout%d" % s_, [layout])
+    steps = rng.randint(3, 8)
+    c.int("steps", steps)
+    for t in range(steps):
+        si = rng.randrange(nsets)
+        rows, np_ = sets[si]
+        fill = int(t == 0 or rng.random() < 0.5)
+        c.int("init%d" % t, rng.randrange(2)).int("set%d" % t, si).int("fill%d" % t, fill)
+        c.mat_shape("st%d" % t, rows, np_, gen.matrix(rng, rows, np_, 9.0)).mat_shape("w%d" % t, np_, 1, gen.matrix(rng, np_, 1))
+    c.meta.update({"nsets": nsets, "steps": steps, "rows": "/".join(str(r) for r, _ in sets)})
+    return c
+
+
 def gen_grid(rng, k):
     nx, ny = rng.randint(2, 6), rng.randint(2, 6)
     if rng.random() < 0.08:
@@ -274,9 +490,7 @@ def gen_grid(rng, k):
         if rng.random() < 0.5: nx = 1
         else: ny = 1
     np_ = nx * ny if rng.random() < 0.7 else max(1, rng.choice([nx * ny - 1, nx * ny + 1, nx + ny, nx, (nx - 1) * (ny - 1), nx * ny + ny]))
-    area = sorted([rng.uniform(-20, 20), rng.uniform(-20, 20)]) + sorted([rng.uniform(-20, 20), rng.uniform(-20, 20)])
-    if rng.random() < 0.15:
-        area[0], area[1] = area[1], area[0]            # inverted interval: still the documented formula
+    area = _area(rng)
     c = caseio.Case(k, "grid", {"nx": nx, "ny": ny, "np": np_, "ok": int(np_ == nx * ny)})
     c.mat("area", [area]).int("nx", nx).int("ny", ny).int("np", np_).int("ctor4", int(rng.random() < 0.3))
     c.mat_shape("st0", 4, np_, gen.matrix(rng, 4, np_, 9.0)).mat_shape("w0", np_, 1, gen.matrix(rng, np_, 1))
@@ -309,7 +523,7 @@ def zero_length_case(rng, cid, sensor):
 
 def generate(rng, tier):
     makers = {"wna": gen_wna, "lti_state": gen_lti_state, "lti_meas": gen_lti_meas, "linmodel": gen_linmodel,
-              "sim": gen_sim, "sensor": lambda r, i: gen_sim(r, i, True), "grid": gen_grid,
+              "sim": gen_sim, "sensor": lambda r, i: gen_sim(r, i, True), "grid": gen_grid, "gridseq": gen_gridseq, "ltisim": gen_ltisim,
               "wna_stat": lambda r, i: gen_wna_stat(r, i, tier), "lin_stat": lambda r, i: gen_lin_stat(r, i, tier)}
     kinds = [kind for kind, n in COUNTS[tier].items() for _ in range(n)]
     rng.shuffle(kinds)           # interleaved, so that any prefix of the list covers every kind
@@ -364,9 +578,11 @@ def expected_outcome(c):
 def nontrivial(c):
     m = c.meta
     if c.kind == "wna":
-        return ("wna", m["dim"], m["ops"], gen.decade(float(m["T"])), gen.decade(float(m["q"])))
+        return ("wna", m["dim"], m["ops"], gen.decade(float(m["T"])), gen.decade(float(m["q"])), str(m.get("intrude")), str(m.get("conc")))
     if c.kind in ("lti_state", "lti_meas"):
         o = expected_outcome(c)
+        if o == "ok" and c.kind == "lti_state" and m.get("how", "fresh") not in ("fresh", "move_ctor"):
+            return (c.kind, o, m["how"], m["fr"])
         return (c.kind, o, tuple(sorted(m.items()))) if o != "ok" else None
     if c.kind == "linmodel":
         o, bad = linmodel_outcome(c)
@@ -374,36 +590,34 @@ def nontrivial(c):
         return ("linmodel", o, m["n"], len(idxs), len(set(idxs)) < len(idxs), bad)
     if c.kind in ("sim", "sensor"):
         ops = c.get("ops")
-        return (c.kind, m["dim"], m["len"], "r" in ops, len(ops) > int(m["len"]), m.get("m"))
+        return (c.kind, m["dim"], m["len"], "r" in ops, len(ops) > int(m["len"]), m.get("m"), m.get("hist"), str(m.get("premove")), str(m.get("intrude")),
+                gen.decade(float(m["T"])), gen.decade(float(m["q"])))
     if c.kind == "grid":
         return ("grid", m["nx"], m["ny"], m["np"], c.get("ctor4"))
+    if c.kind == "ltisim":
+        return ("ltisim", m.get("lin"), m.get("circ"), m.get("len"), m.get("sensor"), m.get("how"), m.get("hist"), tuple(c.get("idxs")))
+    if c.kind == "gridseq":
+        k = c.get("steps")
+        return ("gridseq", m.get("rows"), tuple((c.get("init%d" % t), c.get("set%d" % t), c.get("fill%d" % t)) for t in range(k)),
+                tuple(c.get("np%d" % s_) for s_ in range(c.get("nsets"))))
     if c.kind in ("wna_stat", "lin_stat"):
         return (c.kind, m.get("dim"), m.get("m"), c.id)
     return None
 
 
-# ---------------------------------------------------------------- correspondence
+# ---------------------------------------------------------------- tolerances derived from the case
 
-def _log_close(a, b, cond):
-    """densities compared on the log scale (they range over hundreds of decades)"""
-    a, b = np.asarray(a, float).reshape(-1), np.asarray(b, float).reshape(-1)
-    if a.shape != b.shape:
-        return "shape %s vs %s" % (a.shape, b.shape)
-    for i, (x, y) in enumerate(zip(a, b)):
-        if x == y or (math.isnan(x) and math.isnan(y)):
-            continue
-        if 0 <= x < 1e-290 and 0 <= y < 1e-290:
-            continue            # underflow region: Eigen's vectorised exp clamps its argument (5.56e-309), libm goes subnormal / 0
-        if x > 0 and y > 0:
-            lx, ly = math.log(x), math.log(y)
-            if abs(lx - ly) <= 1e-12 + 1e-13 * cond * (1.0 + abs(lx)):      # ~ 500 eps * cond
-                continue
-        return "entry %d: %r vs %r" % (i, x, y)
-    return None
-
-
-STATS = {"probe_ill_conditioned_skipped": 0, "probes": 0}
+STATS = {"probe_ill_conditioned_skipped": 0, "probes": 0, "density_pairs": 0, "density_pairs_ill_conditioned_skipped": 0,
+         "worst_density_ratio": 0.0, "worst_sample_ratio": 0.0, "worst_traj_ratio": 0.0}
 PROBE_COND_MAX = 1e6
+DENSITY_TOL_MAX = 0.05          # pairs whose derived log-density bound exceeds this are excluded and counted
+S3 = math.sqrt(3.0) / 2.0
+Q0_BLOCK = np.array([[1.0, S3], [S3, 1.0]])          # the equilibrated 2x2 block of Q for every T, q: cond 13.9, det 1/4
+KAPPA_EQ = float(np.linalg.cond(Q0_BLOCK))
+G_PROD = 4.0            # products / sums of d terms: G_PROD * d * eps * sum of magnitudes
+# measured on the thorough tier (seed 1, 14354 cases x 2 variants; 22069 density pairs, 54 excluded): worst |log impl - log model| / bound
+# 0.061, worst sample or motion difference / bound 0.109, worst trajectory or measurement difference / accumulated bound 0.082
+# (the values of each run are in the evidence histogram: worst_*_ratio)
 
 
 def probe_ok(c, impl, count=False):
@@ -418,37 +632,344 @@ def probe_ok(c, impl, count=False):
     return bool(ok)
 
 
+def _kz(impl, d):
+    """relative error (per row, in units of the row's norm) of the factor observed as probeS * probeZ^-1, and of L z"""
+    Z = impl.get("probeZ")
+    cz = float(np.linalg.cond(Z)) if Z is not None and Z.ndim == 2 and Z.shape[0] == Z.shape[1] and Z.size else 1.0
+    return 8.0 * EPS * d * (1.0 + cz)
+
+
+def _sample_bound(kz, rown, Z):
+    """|L z - (L + E) z|: rows of E bounded by kz * |L_i|, |L_i| = sqrt(Q_ii)"""
+    return kz * np.outer(rown, np.linalg.norm(Z, axis=0)) if Z.size else np.zeros((len(rown), Z.shape[1]))
+
+
+def _cw(a, b, bound, what, stat=None):
+    """component-wise comparison against a matrix of allowed differences; None when within"""
+    if a is None or b is None:
+        return "%s: missing" % what
+    a, b = np.asarray(a, float), np.asarray(b, float)
+    if a.shape != b.shape:
+        return "%s: shape %s vs %s" % (what, a.shape, b.shape)
+    if a.size == 0:
+        return None
+    with np.errstate(invalid="ignore"):
+        diff = np.abs(a - b)
+        same = (a == b) | (np.isnan(a) & np.isnan(b))
+        bad = ~same & ~(diff <= bound)
+        if stat:
+            r = np.where(same | ~np.isfinite(diff), 0.0, diff / np.maximum(bound, 1e-300))
+            if r.size and np.isfinite(r).all():
+                STATS[stat] = max(STATS[stat], float(min(np.max(r), 1e9)))
+    if np.any(bad):
+        k = tuple(int(x) for x in np.argwhere(bad)[0])
+        return "%s entry %s: %r vs %r (allowed difference %.3g)" % (what, k, float(a[k]), float(b[k]), float(np.broadcast_to(bound, a.shape)[k]))
+    return None
+
+
+def _rel(a, b, rtol, what):
+    """entry-wise relative comparison (each entry in its own unit)"""
+    b = np.asarray(b, float)
+    return _cw(a, b, rtol * np.abs(b), what)
+
+
+def density_spec(dim, T, q, P, C):
+    """per (previous, current) pair: log N(cur; F prev, Q) computed on the equilibrated problem, and the bound on the error of
+    a log-density computed in doubles by LU / Gauss-Jordan on Q itself: c eps cond(Q0) (d + m) for the inverse and the
+    determinant (the eliminations are invariant under the scaling by units up to the pivot order, and Q0 is the same for all
+    T, q), plus the rounding of cur - F prev, measured in sigmas, pushed through the quadratic form"""
+    d = 2 * dim
+    sig = sigmas(dim, T, q)
+    F = F_closed(dim, T)
+    P, C = np.asarray(P, float).reshape(d, -1), np.asarray(C, float).reshape(d, -1)
+    Q0 = np.kron(np.eye(dim), Q0_BLOCK)
+    L0i = np.linalg.inv(np.linalg.cholesky(Q0))
+    logdet = 2.0 * float(np.sum(np.log(sig))) + dim * math.log(0.25)
+    out = []
+    for j in range(P.shape[1]):
+        delta = C[:, j] - F @ P[:, j]
+        e = (d + 2) * EPS * (np.abs(C[:, j]) + np.abs(F) @ np.abs(P[:, j]))
+        w = L0i @ (delta / sig)
+        m = float(w @ w)
+        nw = float(np.linalg.norm(np.abs(L0i) @ (e / sig)))
+        lw = -0.5 * (d * math.log(2.0 * math.pi) + logdet + m)
+        tol = 0.5 * (4.0 * d * EPS * KAPPA_EQ * (d + m) + 2.0 * math.sqrt(m) * nw + nw * nw) + 8.0 * EPS * abs(lw) + 8.0 * EPS
+        out.append((lw, tol if np.isfinite(tol) else math.inf))
+    return out
+
+
+def _density_close(a, b, spec, count=False):
+    """densities compared on the log scale (they range over hundreds of decades), pair by pair within the derived bound"""
+    a, b = np.asarray(a, float).reshape(-1), np.asarray(b, float).reshape(-1)
+    if a.shape != b.shape or len(a) != len(spec):
+        return "shape %s vs %s (%d pairs)" % (a.shape, b.shape, len(spec))
+    for i, (x, y) in enumerate(zip(a, b)):
+        lw, tol = spec[i]
+        if count:
+            STATS["density_pairs"] += 1
+        if tol > DENSITY_TOL_MAX:
+            if count:
+                STATS["density_pairs_ill_conditioned_skipped"] += 1
+            continue
+        if x == y or (math.isnan(x) and math.isnan(y)):
+            continue
+        if 0 <= x < 1e-290 and 0 <= y < 1e-290:
+            continue            # underflow region: Eigen's vectorised exp clamps its argument (5.56e-309), libm goes subnormal / 0
+        if x > 0 and y > 0 and math.isfinite(x) and math.isfinite(y):
+            dl = abs(math.log(x) - math.log(y))
+            if count:
+                STATS["worst_density_ratio"] = max(STATS["worst_density_ratio"], dl / tol)
+            if dl <= tol:
+                continue
+        return "entry %d: %r vs %r (log N = %.17g, allowed log difference %.3g)" % (i, x, y, lw, tol)
+    return None
+
+
+def _script_bounds(c, impl, T=None):
+    """per operation of a wna script: the mirrored draws it consumed and the allowed difference of its result"""
+    dim = c.get("dim"); T0, q = c.get("Tq")[0]
+    T = T0 if T is None else T
+    d = 2 * dim
+    F, Q = F_closed(dim, T), Q_closed(dim, T, q)
+    rown = np.sqrt(np.diag(Q))
+    kz = _kz(impl, d)
+    z = list(impl.get("draws").reshape(-1)) if impl.has("draws") else []
+    pos, out = 0, []
+    for k, op in enumerate(c.get("script")):
+        arg = int(op[1:])
+        if op[0] == "n":
+            Z = colmajor(z[pos:], d, arg) if len(z) >= pos + d * arg else None
+            out.append(("n", Z, None if Z is None else _sample_bound(kz, rown, Z), None)); pos += d * arg
+        elif op[0] in "mb":
+            X = c.get("X%d" % arg); cols = X.shape[1]
+            Z = colmajor(z[pos:], d, cols) if len(z) >= pos + d * cols else None
+            b = None if Z is None else _sample_bound(kz, rown, Z) + G_PROD * d * EPS * (np.abs(F) @ np.abs(X))
+            out.append(("m", Z, b, X)); pos += d * cols
+        elif op[0] in "tu":
+            out.append(("t", None, None, None))
+        else:
+            out.append((op[0], None, None, None))
+    return out
+
+
+# ---------------------------------------------------------------- correspondence
+
+def compare_wna(c, impl, model):
+    diffs = []
+    dim = c.get("dim"); T, q = c.get("Tq")[0]
+    d = 2 * dim
+    for n in ("F", "Q"):
+        e = _rel(impl.get(n), model.get(n), 16 * EPS, n)
+        if e: diffs.append(e)
+    diffs += caseio.compare_fields(impl, model, ["state_size"], 0.0, 0.0)
+    if not probe_ok(c, impl, count=True):
+        return diffs
+    if model.has("no_factor"):
+        diffs.append("the factor could not be observed on the implementation (probe shapes)")
+        return diffs
+    for k, (kind, Z, bound, X) in enumerate(_script_bounds(c, impl)):
+        n = "r%d" % k
+        if kind in "nm":
+            if bound is None:
+                diffs.append("%s: the mirrored draws are missing" % n); continue
+            e = _cw(impl.get(n), model.get(n), bound, n, "worst_sample_ratio")
+            if e: diffs.append(e)
+        elif kind == "t":
+            arg = int(c.get("script")[k][1:])
+            if not impl.has(n) or not model.has(n):
+                diffs.append("%s: missing (impl %s, model %s)" % (n, impl.has(n), model.has(n))); continue
+            e = _density_close(impl.get(n), model.get(n), density_spec(dim, T, q, c.get("P%d" % arg), c.get("C%d" % arg)), count=True)
+            if e: diffs.append("%s: %s" % (n, e))
+        else:
+            for f in ("_F", "_Q"):
+                e = _rel(impl.get(n + f), model.get(n + f), 16 * EPS, n + f)
+                if e: diffs.append(e)
+            diffs += caseio.compare_fields(impl, model, [n + "_ss"] + ([n + "_ret"] if kind == "s" else []), 0.0, 0.0)
+    return diffs
+
+
+def _traj_bounds(c, impl, model):
+    """accumulated forward-error bound of the recursion x_{k+1} = F x_k + L z_k along the model's trajectory"""
+    dim = c.get("dim"); T, q = c.get("Tq")[0]
+    d, n = 2 * dim, c.get("len")
+    F, Q = F_closed(dim, T), Q_closed(dim, T, q)
+    rown = np.sqrt(np.diag(Q))
+    kz = _kz(impl, d)
+    z = list(impl.get("draws").reshape(-1)) if impl.has("draws") else []
+    xs = [model.get("x%d" % k) for k in range(n)]
+    if any(x is None for x in xs) or len(z) < d * (n - 1):
+        return None, None
+    e = [np.zeros(d)]
+    for k in range(n - 1):
+        zk = np.array(z[d * k:d * (k + 1)])
+        e.append(np.abs(F) @ e[-1] + G_PROD * d * EPS * (np.abs(F) @ np.abs(xs[k].reshape(-1))) + kz * rown * np.linalg.norm(zk))
+    return xs, e
+
+
+def compare_sim(c, impl, model):
+    diffs = caseio.compare_fields(impl, model, ["ctor"], 0.0, 0.0)
+    if c.get("len") == 0 or (impl.get("ctor") or [None])[0] != "ok":
+        return diffs
+    if not probe_ok(c, impl, count=True):
+        return diffs
+    if model.has("no_factor") or model.has("no_state"):
+        return diffs + ["model could not be run: %s" % [n for n in model.names() if n.startswith("no_")]]
+    xs, eb = _traj_bounds(c, impl, model)
+    if xs is None:
+        return diffs + ["the model's trajectory or the mirrored draws are missing"]
+    n, sensor = c.get("len"), c.kind == "sensor"
+    if sensor:
+        diffs += caseio.compare_fields(impl, model, ["H", "sqrtR", "meas_size", "meas_lin", "meas_circ", "input_size", "input_noise"], 0.0, 0.0)
+        idxs = [int(s_) for s_ in c.get("idxs")]
+        LR = impl.get("sqrtR"); m = len(idxs)
+        z2 = list(impl.get("draws2").reshape(-1)) if impl.has("draws2") else []
+    else:
+        diffs += caseio.compare_fields(impl, model, ["data_init_empty"], 0.0, 0.0)
+    cur, served, last_bound = 0, 0, None
+    for k, op in enumerate(c.get("ops")):
+        diffs += caseio.compare_fields(impl, model, ["ret%d" % k], 0.0, 0.0)
+        if op in ("b", "f"):
+            if cur < n:
+                if sensor:
+                    zk = np.array(z2[m * served:m * (served + 1)]) if len(z2) >= m * (served + 1) else np.zeros(m)
+                    last_bound = (eb[cur][idxs] + G_PROD * EPS * np.abs(xs[cur].reshape(-1)[idxs]) + G_PROD * m * EPS * (np.abs(LR) @ np.abs(zk))).reshape(m, 1)
+                    served += 1
+                else:
+                    last_bound = eb[cur].reshape(-1, 1)
+                cur += 1
+        elif op == "r":
+            cur = 0
+        name = ("meas%d" if sensor else "data%d") % k
+        if not sensor:
+            diffs += caseio.compare_fields(impl, model, [name + "_empty"], 0.0, 0.0)
+        a, b = impl.get(name), model.get(name)
+        if a is None and b is None:
+            continue
+        if last_bound is None:
+            if (a is not None and a.size) or (b is not None and b.size):
+                diffs.append("%s: a value before the first successful call (impl %s, model %s)" % (name, None if a is None else a.shape, None if b is None else b.shape))
+            continue
+        e = _cw(a, b, last_bound, name, "worst_traj_ratio")
+        if e:
+            diffs.append(e)
+            break
+    return diffs
+
+
+def _lti_bounds(c, xs):
+    """accumulated forward-error bound of x_{k+1} = F x_k + w_k along the given trajectory"""
+    F, W = c.get("F"), c.get("W")
+    n = F.shape[0]
+    e = [np.zeros(n)]
+    for k in range(len(xs) - 1):
+        e.append(np.abs(F) @ e[-1] + G_PROD * n * EPS * (np.abs(F) @ np.abs(xs[k].reshape(-1)) + np.abs(W[:, k])))
+    return e
+
+
+def _cursor_walk(ops, n):
+    """for every call: the trajectory index whose state getData() holds after it (None before the first served state),
+    and whether the call is a successful serve"""
+    cur, last, out = 0, None, []
+    for op in ops:
+        served = False
+        if op in ("b", "f"):
+            if cur < n:
+                last, served = cur, True
+                cur += 1
+        elif op == "r":
+            cur = 0
+        out.append((last, served))
+    return out
+
+
+def compare_ltisim(c, impl, model):
+    n_, sensor = c.get("len"), c.get("sensor")
+    xs = [model.get("x%d" % k) for k in range(n_)]
+    if any(x is None for x in xs):
+        return ["the model's trajectory is missing"]
+    eb = _lti_bounds(c, xs)
+    diffs = []
+    if sensor:
+        diffs += caseio.compare_fields(impl, model, ["H", "sqrtR", "meas_size", "meas_lin", "meas_circ", "input_size", "input_lin", "input_circ", "input_noise"], 0.0, 0.0)
+        idxs = [int(s_) for s_ in c.get("idxs")]; m = len(idxs)
+        LR = impl.get("sqrtR")
+        z2 = list(impl.get("draws2").reshape(-1)) if impl.has("draws2") else []
+    nserved, mb = 0, None
+    for k, (idx, served) in enumerate(_cursor_walk(c.get("ops"), n_)):
+        diffs += caseio.compare_fields(impl, model, ["ret%d" % k, "data%d_empty" % k], 0.0, 0.0)
+        if idx is None:
+            continue
+        e = _cw(impl.get("data%d" % k), model.get("data%d" % k), eb[idx].reshape(-1, 1), "data%d" % k, "worst_traj_ratio")
+        if e: diffs.append(e); break
+        if sensor:
+            if served:
+                zk = np.array(z2[m * nserved:m * (nserved + 1)]) if len(z2) >= m * (nserved + 1) else np.zeros(m)
+                mb = (eb[idx][idxs] + G_PROD * EPS * np.abs(xs[idx].reshape(-1)[idxs]) + G_PROD * m * EPS * (np.abs(LR) @ np.abs(zk))).reshape(m, 1)
+                nserved += 1
+            e = _cw(impl.get("meas%d" % k), model.get("meas%d" % k), mb, "meas%d" % k, "worst_traj_ratio")
+            if e: diffs.append(e); break
+    return diffs
+
+
+def _grid_bound(area, ctor4, rows, np_):
+    a = area
+    xi, xs, yi, ys = (0.0, a[1], 0.0, a[3]) if ctor4 else a
+    b = np.zeros((rows, np_))
+    if rows >= 1: b[0, :] = 8 * EPS * (abs(xi) + abs(xs))
+    if rows >= 3: b[2, :] = 8 * EPS * (abs(yi) + abs(ys))
+    return b
+
+
+def compare_grid(c, impl, model):
+    diffs = caseio.compare_fields(impl, model, ["ret"], 0.0, 0.0)
+    e = _cw(impl.get("state"), model.get("state"), _grid_bound(c.get("area")[0], c.get("ctor4"), 4, c.get("np")), "state")
+    if e: diffs.append(e)
+    e = _rel(impl.get("weight"), model.get("weight"), 8 * EPS, "weight")
+    if e: diffs.append(e)
+    return diffs
+
+
+def compare_gridseq(c, impl, model):
+    diffs = []
+    for k in range(c.get("steps")):
+        t = str(k)
+        si = c.get("set" + t); rows, np_ = c.get("rows%d" % si), c.get("np%d" % si)
+        i = c.get("init" + t)
+        diffs += caseio.compare_fields(impl, model, ["ret" + t], 0.0, 0.0)
+        e = _cw(impl.get("state" + t), model.get("state" + t), _grid_bound(c.get("area%d" % i)[0], c.get("ctor4_%d" % i), rows, np_), "state" + t)
+        if e: diffs.append(e)
+        e = _rel(impl.get("weight" + t), model.get("weight" + t), 8 * EPS, "weight" + t)
+        if e: diffs.append(e)
+    return diffs
+
+
 def compare(c, impl, model):
     if c.kind in ("wna_stat", "lin_stat"):
         return []                       # no model output: these cases serve the property oracle only
-    if c.kind in ("wna", "sim", "sensor") and not probe_ok(c, impl, count=True):
-        return caseio.compare_fields(impl, model, [n for n in ("F", "Q", "state_size", "ctor") if model.has(n)], atol=0.0, rtol=1e-12)
-    skip_prefix = ("spec_", "LLt", "draws_left", "traj_len", "err_pos", "no_factor")
-    names = [n for n in model.names() if not n.startswith(skip_prefix) and n != "L" and not (n.startswith("x") and n[1:].isdigit())]
-    diffs = []
     if c.kind == "wna":
-        script = c.get("script")
-        tps = {"r%d" % i for i, s in enumerate(script) if s[0] == "t"}
-        plain = [n for n in names if n not in tps]
-        closed = [n for n in plain if n in ("F", "Q", "state_size")]
-        diffs += caseio.compare_fields(impl, model, closed, atol=0.0, rtol=1e-12)
-        diffs += caseio.compare_fields(impl, model, [n for n in plain if n not in closed], atol=1e-12, rtol=1e-9)
-        cond = float(c.meta["cond"])
-        for n in sorted(tps):
-            if not impl.has(n) or not model.has(n):
-                diffs.append("%s: missing (impl %s, model %s)" % (n, impl.has(n), model.has(n))); continue
-            e = _log_close(impl.get(n), model.get(n), cond)
-            if e:
-                diffs.append("%s: %s" % (n, e))
-        if model.has("no_factor"):
-            diffs.append("the factor could not be observed on the implementation (probe shapes)")
-        return diffs
-    if model.has("no_factor") or model.has("no_state"):
-        diffs.append("model could not be run: %s" % [n for n in model.names() if n.startswith("no_")])
-    if c.kind == "sensor":
-        names = [n for n in names if n not in ("result", "R")]
-    rtol = 1e-9 if c.kind in ("sim", "sensor", "linmodel") else 1e-12
-    diffs += caseio.compare_fields(impl, model, names, atol=1e-12 if rtol > 1e-10 else 0.0, rtol=rtol)
+        return compare_wna(c, impl, model)
+    if c.kind in ("sim", "sensor"):
+        return compare_sim(c, impl, model)
+    if c.kind == "grid":
+        return compare_grid(c, impl, model)
+    if c.kind == "gridseq":
+        return compare_gridseq(c, impl, model)
+    if c.kind == "ltisim":
+        return compare_ltisim(c, impl, model)
+    # constructors: outcomes and exposed matrices exactly (they are copies of the arguments)
+    skip_prefix = ("spec_", "LLt", "draws_left", "err_pos", "no_factor")
+    names = [n for n in model.names() if not n.startswith(skip_prefix) and not (n.startswith("r") and n[1:].isdigit())]
+    diffs = caseio.compare_fields(impl, model, names, 0.0, 0.0)
+    if c.kind == "linmodel" and (impl.get("result") or [None])[0] == "ok":
+        L = impl.get("sqrtR"); m = L.shape[0]
+        z = list(impl.get("draws").reshape(-1)) if impl.has("draws") else []
+        pos = 0
+        for k, s_ in enumerate(c.get("nums")):
+            num = int(s_)
+            Z = colmajor(z[pos:], m, num) if len(z) >= pos + m * num else np.zeros((m, num))
+            e = _cw(impl.get("r%d" % k), model.get("r%d" % k), G_PROD * m * EPS * (np.abs(L) @ np.abs(Z)), "r%d" % k)
+            if e: diffs.append(e)
+            pos += m * num
     return diffs
 
 
@@ -460,6 +981,22 @@ def _close(a, b, rtol, atol=0.0):
         return False
     scale = max(1.0, float(np.max(np.abs(b)))) if b.size else 1.0
     return caseio.close(a, b, atol + rtol * scale, 0.0)
+
+
+def _factor_ok(L, R, extra=0.0):
+    """L L^T = R entry by entry in the units of R: |(L L^T - R)_ij| <= c eps sqrt(R_ii R_jj) (the component-wise backward
+    error of a Cholesky-type factorisation; it does not depend on the conditioning of R)"""
+    L, R = np.asarray(L, float), np.asarray(R, float)
+    if L.ndim != 2 or R.ndim != 2 or L.shape != R.shape or R.shape[0] != R.shape[1]:
+        return False, float("nan")
+    if R.size == 0:
+        return True, 0.0
+    dg = np.sqrt(np.abs(np.diag(R)))
+    scale = np.outer(dg, dg)
+    with np.errstate(invalid="ignore", divide="ignore"):
+        r = np.abs(L @ L.T - R) / np.where(scale > 0, scale, 1.0)
+    worst = float(np.max(r)) if np.all(np.isfinite(r)) else math.inf
+    return worst <= 64.0 * R.shape[0] * EPS + extra, worst
 
 
 def _observed_L(impl, d):
@@ -489,70 +1026,108 @@ def _wna_common(c, impl, v):
     return F, Q, L
 
 
+def _closed_form_clauses(v, Fi, Qi, ssi, dim, T, q, where):
+    dn = DIMNAME[dim]
+    F, Q = F_closed(dim, T), Q_closed(dim, T, q)
+    e = _rel(Fi, F, 4 * EPS, "F")
+    if e:
+        v.append(("C16:F-not-closed-form:Dim=%s" % dn, "%sF is not blockdiag([1 T; 0 1]), T = %r: %s" % (where, float(T), e)))
+    e = _rel(Qi, Q, 32 * EPS, "Q")
+    if e:
+        v.append(("C16:Q-not-closed-form:Dim=%s" % dn, "%sQ is not q blockdiag([T^3/3 T^2/2; T^2/2 T]), T = %r, q = %r: %s" % (where, float(T), float(q), e)))
+    if ssi != 2 * dim:
+        v.append(("C16:state-size:Dim=%s" % dn, "%sstate description has size %s" % (where, ssi)))
+
+
 def oracle_wna(c, impl, model):
     """Property clauses only.  'sample = L * (mirrored draws)' is a correspondence matter (compare): a change of the
     draw order is not a violation of the property.  The factor observed through the mirror is judged (L L^T = Q)
-    only when the mirror is validated by this very case (every sample equals L Z)."""
+    only when the mirror is validated by this very case (every sample equals L Z).  Mirror-free clauses: closed forms
+    (initially and after every setSamplingTime / move), shapes, inputs and frames untouched, N(cur; F prev, Q), and
+    'the subject returns, bit for bit, what an object built from the same arguments returns that is never moved and is
+    used while no other object is' (ref_diff_at)."""
     v = []
     dim = c.get("dim"); T, q = c.get("Tq")[0]
     d, dn = 2 * dim, DIMNAME[dim]
     F, Q, L = _wna_common(c, impl, v)
-    if not _close(impl.get("F"), F, 1e-15):
-        v.append(("C16:F-not-closed-form:Dim=%s" % dn, "F differs from blockdiag([1 T; 0 1]) by %.3g" % caseio.maxdiff(impl.get("F"), F)))
-    if not _close(impl.get("Q"), Q, 1e-12, 0) or not caseio.close(impl.get("Q"), Q, 0.0, 1e-12):
-        v.append(("C16:Q-not-closed-form:Dim=%s" % dn, "Q differs from q blockdiag([T^3/3 T^2/2; T^2/2 T]) by %.3g" % caseio.maxdiff(impl.get("Q"), Q)))
-    if impl.get("state_size") != d:
-        v.append(("C16:state-size:Dim=%s" % dn, "state description has size %s" % impl.get("state_size")))
-    z = list(impl.get("draws").reshape(-1)) if impl.has("draws") else []
-    pos = 0
-    cond = float(c.meta["cond"])
+    _closed_form_clauses(v, impl.get("F"), impl.get("Q"), impl.get("state_size"), dim, T, q, "")
+    script = c.get("script")
+    bounds = _script_bounds(c, impl)
     mirror_ok, mirror_used = L is not None, False
-    for k, op in enumerate(c.get("script")):
+    T0 = T          # T: the sampling interval in force (a model that implements setSamplingTime is judged with the new one)
+    for k, op in enumerate(script):
         r = impl.get("r%d" % k)
         arg = int(op[1:])
+        kind, Z, bound, X = bounds[k]
+        if T != T0:
+            F, mirror_ok = F_closed(dim, T), False
         if op[0] == "n":
             if r is None or r.shape != (d, arg):
                 v.append(("C16:noise-sample-rows:Dim=%s" % dn, "getNoiseSample(%d) returned shape %s" % (arg, None if r is None else r.shape)))
                 mirror_ok = False
-            elif L is not None and arg > 0:
+            elif L is not None and arg > 0 and bound is not None:
                 mirror_used = True
-                mirror_ok = mirror_ok and _close(r, L @ colmajor(z[pos:], d, arg), 1e-8)
-            pos += d * arg
-        elif op[0] == "m":
-            X = c.get("X%d" % arg); cols = X.shape[1]
+                mirror_ok = mirror_ok and _cw(r, L @ Z, 4 * bound, "r") is None
+        elif op[0] in "mb":
+            cols = X.shape[1]
             if impl.get("r%d_input_kept" % k) != 1:
                 v.append(("C16:motion-modifies-input", "call %d" % k))
+            if op[0] == "b" and impl.get("r%d_frame_kept" % k) != 1:
+                v.append(("C16:motion-writes-outside-output", "call %d: motion through a block of a larger matrix changed entries outside the block" % k))
             if r is None or r.shape != X.shape:
                 v.append(("C16:motion-shape:Dim=%s" % dn, "call %d returned shape %s" % (k, None if r is None else r.shape)))
                 mirror_ok = False
-            elif L is not None and cols > 0:
+            elif L is not None and cols > 0 and bound is not None:
                 mirror_used = True
-                mirror_ok = mirror_ok and _close(r, F @ X + L @ colmajor(z[pos:], d, cols), 1e-8)
-            pos += d * cols
-        else:
+                mirror_ok = mirror_ok and _cw(r, F @ X + L @ Z, 4 * bound, "r") is None
+        elif op[0] in "tu":
             P, C = c.get("P%d" % arg), c.get("C%d" % arg)
+            if op[0] == "u" and impl.get("r%d_input_kept" % k) != 1:
+                v.append(("C16:transition-density-modifies-input", "call %d" % k))
             if r is None or r.shape != (P.shape[1], 1):
                 v.append(("C16:transition-density-shape:Dim=%s" % dn, "call %d returned shape %s for %d pairs" % (k, None if r is None else r.shape, P.shape[1])))
                 continue
-            want = [log_gauss(C[:, j], F @ P[:, j], Q) for j in range(P.shape[1])]
-            for j, lw in enumerate(want):
+            spec = density_spec(dim, T, q, P, C)
+            for j, (lw, tol) in enumerate(spec):
+                if tol > DENSITY_TOL_MAX:
+                    continue
                 got = float(r[j, 0])
-                okv = (got > 0 and abs(math.log(got) - lw) <= 1e-9 + 1e-11 * cond * (1.0 + abs(lw))) or (got == 0.0 and lw < -700) or (0 <= got < 1e-290 and lw < -660)
+                okv = (got > 0 and math.isfinite(got) and abs(math.log(got) - lw) <= 2 * tol) or (got == 0.0 and lw < -700) or (0 <= got < 1e-290 and lw < -660)
                 if not okv:
                     v.append(("C16:transition-density-not-N(cur;F.prev,Q):Dim=%s" % dn,
-                              "call %d pair %d: returned %r, N(cur; F prev, Q) = exp(%.17g)" % (k, j, got, lw)))
+                              "call %d pair %d: returned %r, N(cur; F prev, Q) = exp(%.17g) (allowed log difference %.3g)" % (k, j, got, lw, 2 * tol)))
                     break
             if model is not None and model.has("spec_r%d" % k):
-                e = _log_close(r, model.get("spec_r%d" % k), cond * 100)
+                e = _density_close(r, model.get("spec_r%d" % k), [(lw, 2 * tol) for lw, tol in spec])
                 if e:
                     v.append(("C16:transition-density-not-N(cur;F.prev,Q):Dim=%s" % dn, "call %d vs the extracted density: %s" % (k, e)))
-    if L is not None and mirror_ok and mirror_used and not _close(L @ L.T, Q, 1e-8):
-        v.append(("C16:noise-cov-not-Q:Dim=%s" % dn, "every sample is L*Z for the observed factor L, but max|L L^T - Q| = %.3g (max|Q| %.3g)" % (caseio.maxdiff(L @ L.T, Q), np.max(np.abs(Q)))))
+        else:
+            what = {"s": "after setSamplingTime: ", "c": "after move construction: ", "a": "after move assignment: ", "v": "after growth of a std::vector: "}[op[0]]
+            Fi = impl.get("r%d_F" % k)
+            if op[0] == "s" and Fi is not None and Fi.shape == (d, d) and float(Fi[0, 1]) == float(c.get("S%d" % arg)[0, 0]) != T:
+                T = float(c.get("S%d" % arg)[0, 0])         # the model took the new interval: every clause from here on is about it
+            _closed_form_clauses(v, Fi, impl.get("r%d_Q" % k), impl.get("r%d_ss" % k), dim, T, q, what)
+    if L is not None and mirror_ok and mirror_used and T == T0:
+        okf, worst = _factor_ok(L, Q, extra=8 * _kz(impl, d))
+        if not okf:
+            v.append(("C16:noise-cov-not-Q:Dim=%s" % dn, "every sample is L*Z for the observed factor L, but |L L^T - Q|_ij / sqrt(Q_ii Q_jj) reaches %.3g" % worst))
+    rd = impl.get("ref_diff_at")
+    if rd is not None and rd >= 0:
+        ops = "".join(s_[0] for s_ in script[:rd + 1])
+        causes = (["moved"] if any(o in ops for o in "cav") else []) + (["other-objects"] if _geti(c, "intrude") else [])
+        cause = "+".join(causes) or "plain"
+        text = " and ".join({"other-objects": "while an independent model is used inside its callbacks and between its calls",
+                             "moved": "after being obtained by move construction / move assignment / vector growth (%s)" % ops}[x] for x in causes) or "on the same call sequence"
+        v.append(("C16:model-differs-from-identically-built-model:%s:Dim=%s" % (cause, dn),
+                  "call %d (%s): the subject, %s, does not return what a model built from the same arguments (seed included) returns" % (rd, script[rd], text)))
+    if impl.has("concurrent_ok") and impl.get("concurrent_ok") != 1:
+        v.append(("C16:models-interfere-across-threads:Dim=%s" % dn, "three models with their own parameters and seeds, used from three threads, do not return their sequential results"))
     return v
 
 
-def _moment_check(v, sig, what, got, want, var_diag, N, second=True):
-    """entry-wise test of an empirical moment against its expectation, SIGMAS standard deviations"""
+def _moment_check(v, sig, what, got, want, var_diag, N, second=True, slack=0.0):
+    """entry-wise test of an empirical moment against its expectation, SIGMAS standard deviations (each entry in its own
+    unit; slack: rounding of the accumulation, N eps |want| unless given)"""
     got = np.asarray(got, float)
     if got.shape != want.shape:
         v.append((sig, "%s has shape %s, expected %s" % (what, got.shape, want.shape))); return
@@ -560,10 +1135,10 @@ def _moment_check(v, sig, what, got, want, var_diag, N, second=True):
         sd = np.sqrt((np.outer(var_diag, var_diag) + want ** 2) / N)
     else:
         sd = np.sqrt(var_diag / N).reshape(want.shape)
-    bad = np.abs(got - want) > SIGMAS * sd + 1e-12 * np.max(np.abs(want) + 1e-300)
+    bad = ~(np.abs(got - want) <= SIGMAS * sd + 4 * N * EPS * np.abs(want) + slack)
     if np.any(bad):
-        i = np.argwhere(bad)[0]
-        v.append((sig, "%s entry %s: %.6g, expected %.6g +- %.3g (%d samples, %.1f sigma allowed)" % (what, tuple(i), got[tuple(i)], want[tuple(i)], sd[tuple(i)], N, SIGMAS)))
+        i = tuple(int(x) for x in np.argwhere(bad)[0])
+        v.append((sig, "%s entry %s: %.6g, expected %.6g +- %.3g (%d samples, %.1f sigma allowed)" % (what, i, got[i], want[i], sd[i], N, SIGMAS)))
 
 
 def oracle_wna_stat(c, impl, model):
@@ -579,7 +1154,9 @@ def oracle_wna_stat(c, impl, model):
     _moment_check(v, "C16:noise-empirical-mean-not-0:Dim=%s" % dn, "mean of the noise samples", impl.get("noise_mean"), np.zeros((d, 1)), dq, N, second=False)
     x = c.get("x")
     _moment_check(v, "C16:motion-empirical-mean-not-Fx:Dim=%s" % dn, "mean of motion(x)", impl.get("motion_mean"), F @ x, dq, N, second=False)
-    _moment_check(v, "C16:motion-empirical-cov-not-Q:Dim=%s" % dn, "covariance of motion(x)", impl.get("motion_cov"), Q, dq, N)
+    m_ = np.abs(F @ x).reshape(-1); sd_ = np.sqrt(dq)
+    _moment_check(v, "C16:motion-empirical-cov-not-Q:Dim=%s" % dn, "covariance of motion(x)", impl.get("motion_cov"), Q, dq, N,
+                  slack=16 * EPS * (np.outer(m_, sd_) + np.outer(sd_, m_)) + 16 * N * EPS * EPS * np.outer(m_, m_))
     return v
 
 
@@ -590,7 +1167,7 @@ def oracle_lin_stat(c, impl, model):
         v.append(("C16:sensor-noise-sample-rows:m=%d" % m, "getNoiseSample(%d) returned %s x %s" % (N, impl.get("noise_rows"), impl.get("noise_cols"))))
         return v
     L = impl.get("sqrtR")
-    if L is None or L.shape != (m, m) or not _close(L @ L.T, R, 1e-9):
+    if L is None or L.shape != (m, m) or not _factor_ok(L, R)[0]:
         v.append(("C16:sensor-noise-cov-not-R", "sqrt_R sqrt_R^T differs from R"))
     _moment_check(v, "C16:sensor-noise-empirical-cov-not-R", "second moment of the sensor noise", impl.get("noise_second_moment"), R, np.diag(R), N)
     _moment_check(v, "C16:sensor-noise-empirical-mean-not-0", "mean of the sensor noise", impl.get("noise_mean"), np.zeros((m, 1)), np.diag(R), N, second=False)
@@ -618,8 +1195,11 @@ def oracle_ctor(c, impl, model):
             a = impl.get(out)
             if a is None or a.shape != c.get(inp).shape or not np.array_equal(a, c.get(inp)):
                 v.append(("C16:ctor-exposes-other-matrix:%s:%s" % (c.kind, out), "accessor returns a matrix different from the one passed in"))
+        how = (c.get("how") or ["move_ctor"])[0] if c.has("how") else "move_ctor"
         if c.kind == "lti_state" and impl.get("moved_same") != 1:
-            v.append(("C16:ctor-exposes-other-matrix:lti_state:move", "moved-to object exposes other matrices"))
+            v.append(("C16:ctor-exposes-other-matrix:lti_state:%s" % how, "the object obtained (%s) exposes other matrices than the ones the model was constructed with" % how))
+        if c.kind == "lti_state" and impl.has("F_after") and not (np.array_equal(impl.get("F_after"), impl.get("F")) and np.array_equal(impl.get("Q_after"), impl.get("Q"))):
+            v.append(("C16:lti-state-changed-by-setSamplingTime", "after setSamplingTime / setProperty the time-invariant model exposes other matrices than before"))
         if c.kind == "lti_meas" and impl.get("R_valid") != 1:
             v.append(("C16:ctor-exposes-other-matrix:lti_meas:R_valid", "getNoiseCovarianceMatrix reports invalid"))
     return v
@@ -653,8 +1233,9 @@ def oracle_linmodel(c, impl, model):
     if not np.array_equal(impl.get("R"), R):
         v.append(("C16:ctor-exposes-other-matrix:linmodel:R", "getNoiseCovarianceMatrix differs from the matrix passed in"))
     L = impl.get("sqrtR")
-    if L is None or L.shape != (m, m) or not _close(L @ L.T, R, 1e-9):
-        v.append(("C16:sensor-noise-cov-not-R", "sqrt_R sqrt_R^T differs from R by %.3g" % (caseio.maxdiff(L @ L.T, R) if L is not None and L.shape == (m, m) else float("nan"))))
+    okf, worst = _factor_ok(L, R) if L is not None and L.shape == (m, m) else (False, float("nan"))
+    if not okf:
+        v.append(("C16:sensor-noise-cov-not-R", "|sqrt_R sqrt_R^T - R|_ij / sqrt(R_ii R_jj) reaches %.3g" % worst))
         return v
     if impl.get("reproducible") != 1:
         v.append(("C16:sensor-noise-not-reproducible", "two sensors with the same seed drew different samples"))
@@ -666,6 +1247,34 @@ def oracle_linmodel(c, impl, model):
             v.append(("C16:sensor-noise-sample-rows:m=%d" % m, "getNoiseSample(%d) returned shape %s for measurement size %d" % (num, None if r is None else r.shape, m)))
     # 'sample = sqrt_R * (mirrored draws)' is compared against the model (correspondence), not judged here
     return v
+
+
+MAHA_MAX = 300.0        # chi-square with at most 6 degrees of freedom: P(> 300) < 1e-58
+
+
+def _increment_clause(v, dim, T, q, seen):
+    """x_{k+1} = motion(x_k), mirror-free: every served increment x_{k+1} - F x_k is a plausible draw of N(0, Q) (its
+    Mahalanobis length, with the rounding of the difference measured in sigmas, is below MAHA_MAX) and the increments are
+    not all exactly zero"""
+    d = 2 * dim
+    sig, F = sigmas(dim, T, q), F_closed(dim, T)
+    L0i = np.linalg.inv(np.linalg.cholesky(np.kron(np.eye(dim), Q0_BLOCK)))
+    steps, zeros = 0, 0
+    for i in sorted(seen):
+        if i + 1 not in seen:
+            continue
+        xi, xn = seen[i].reshape(-1), seen[i + 1].reshape(-1)
+        delta = xn - F @ xi
+        e = (d + 2) * EPS * (np.abs(xn) + np.abs(F) @ np.abs(xi))
+        w = L0i @ (delta / sig)
+        m, nw = float(w @ w), float(np.linalg.norm(np.abs(L0i) @ (e / sig)))
+        steps += 1; zeros += int(m == 0.0)
+        if not math.sqrt(m) <= math.sqrt(MAHA_MAX) + nw:
+            v.append(("C16:trajectory-step-not-motion:Dim=%s" % DIMNAME[dim],
+                      "x_%d - F x_%d has Mahalanobis length^2 %.6g under Q (a draw of N(0, Q) stays below %g; rounding allowance %.3g sigmas)" % (i + 1, i, m, MAHA_MAX, nw)))
+            return
+    if steps >= 3 and zeros == steps:
+        v.append(("C16:trajectory-step-not-motion:Dim=%s" % DIMNAME[dim], "all %d served increments x_{k+1} - F x_k are exactly zero: no noise" % steps))
 
 
 def oracle_sim(c, impl, model):
@@ -682,6 +1291,12 @@ def oracle_sim(c, impl, model):
     _wna_common(c, impl, v)
     n = c.get("len")
     x0 = c.get("x0").reshape(-1)
+    rd = impl.get("ref_diff_at")
+    if rd is not None and rd >= 0:
+        causes = (["moved"] if _geti(c, "premove", -1) >= 0 else []) + (["other-objects"] if _geti(c, "intrude") else [])
+        v.append(("C16:%s-differs-from-identically-built-one:%s" % ("sensor" if c.kind == "sensor" else "trajectory", "+".join(causes) or "plain"),
+                  "call %d (%s): not the value returned by a pipeline built from the same arguments%s" % (rd, c.get("ops")[rd],
+                   "".join({"other-objects": ", used while no other object is", "moved": ", whose state model was not moved"}[x] for x in causes))))
     seen = {}            # trajectory as served by the implementation itself: index -> state
     # x_{k+1} = F x_k + L z_k against the mirrored draws is compared with the model (correspondence); here:
     # x_0 is the given state, the states are served in order, identically after every reset, the end is reported
@@ -719,6 +1334,7 @@ def oracle_sim(c, impl, model):
                     return v
             elif impl.get("data%d_empty" % k) != 1:
                 v.append(("C16:trajectory-data-before-first-call", "getData() holds a value before the first successful bufferData()"))
+        _increment_clause(v, c.get("dim"), *c.get("Tq")[0], seen)
         return v
     # sensor
     idxs = [int(s) for s in c.get("idxs")]
@@ -727,7 +1343,7 @@ def oracle_sim(c, impl, model):
     if H is None or not np.array_equal(H, _selector(d, idxs)):
         v.append(("C16:selector-matrix", "sensor H is not the 0/1 selector of %s" % idxs)); return v
     LR = impl.get("sqrtR"); R = c.get("R")
-    if LR is None or LR.shape != (m, m) or not _close(LR @ LR.T, R, 1e-9):
+    if LR is None or LR.shape != (m, m) or not _factor_ok(LR, R)[0]:
         v.append(("C16:sensor-noise-cov-not-R", "sqrt_R sqrt_R^T != R")); return v
     desc = (impl.get("meas_size"), impl.get("meas_lin"), impl.get("meas_circ"), impl.get("input_size"), impl.get("input_noise"))
     if desc != (m, m, 0, d + m, m):
@@ -759,39 +1375,140 @@ def oracle_sim(c, impl, model):
     return v
 
 
-def oracle_grid(c, impl, model):
+def oracle_ltisim(c, impl, model):
+    """mirror-free: x_0 is the given state, x_{k+1} = F x_k + w_k on the states the implementation itself served (one-step
+    forward-error bound), served in order, restarting on reset, the end reported; the sensor's descriptions count the
+    measured components below / at or above the number of linear state components; measure() - H x_k is a plausible draw
+    of N(0, R)"""
     v = []
-    nx, ny, np_ = c.get("nx"), c.get("ny"), c.get("np")
-    a = c.get("area")[0]
-    xi, xs, yi, ys = (0.0, a[1], 0.0, a[3]) if c.get("ctor4") else a
-    ok = np_ == nx * ny
-    if impl.get("ret") != int(ok):
-        v.append(("C16:grid-refusal", "%d particles for a %d x %d grid: initialize returned %s" % (np_, nx, ny, impl.get("ret"))))
-        return v
-    st, w = impl.get("state"), impl.get("weight")
+    n_, sensor, ops = c.get("len"), c.get("sensor"), c.get("ops")
+    F, W, x0 = c.get("F"), c.get("W"), c.get("x0")
+    n = F.shape[0]
+    lin, circ = c.get("lin"), c.get("circ")
+    idxs = [int(s_) for s_ in c.get("idxs")]; m = len(idxs)
+    if sensor:
+        H = impl.get("H")
+        if H is None or not np.array_equal(H, _selector(n, idxs)):
+            v.append(("C16:selector-matrix", "sensor H is not the 0/1 selector of %s" % idxs)); return v
+        LR, R = impl.get("sqrtR"), c.get("R")
+        if LR is None or LR.shape != (m, m) or not _factor_ok(LR, R)[0]:
+            v.append(("C16:sensor-noise-cov-not-R", "sqrt_R sqrt_R^T != R")); return v
+        ml = sum(1 for i in idxs if i < lin)
+        got = tuple(impl.get(f) for f in ("meas_size", "meas_lin", "meas_circ", "input_size", "input_lin", "input_circ", "input_noise"))
+        want = (m, ml, m - ml, n + m, lin, circ, m)
+        if got != want:
+            v.append(("C16:sensor-descriptions", "measurement (size, linear, circular) and input (size, linear, circular, noise) descriptions %s, documented %s for components %s of a state with %d linear and %d circular components" % (got, want, idxs, lin, circ)))
+    seen, cur, last = {}, 0, None
+    for k, op in enumerate(ops):
+        ret, got = impl.get("ret%d" % k), impl.get("data%d" % k)
+        if op in ("b", "f"):
+            want = 1 if cur < n_ else 0
+            if ret != want:
+                v.append(("C16:trajectory-end-not-reported" if want == 0 else "C16:trajectory-serving-refused", "call %d (%d served since reset, length %d) returned %s" % (k, cur, n_, ret)))
+                return v
+            if want:
+                if got is None or got.shape != (n, 1):
+                    v.append(("C16:trajectory-not-served-in-order:user-model", "after call %d getData() has shape %s" % (k, None if got is None else got.shape))); return v
+                if cur == 0 and not np.array_equal(got, x0):
+                    v.append(("C16:trajectory-not-served-in-order:user-model", "the first state served after call %d is not the initial state" % k)); return v
+                if cur in seen and not np.array_equal(got, seen[cur]):
+                    v.append(("C16:trajectory-not-served-in-order:user-model", "call %d serves index %d with a state different from the one served for it before the reset" % (k, cur))); return v
+                if cur > 0 and cur - 1 in seen and cur not in seen:
+                    xp = seen[cur - 1].reshape(-1)
+                    b = 2 * G_PROD * n * EPS * (np.abs(F) @ np.abs(xp) + np.abs(W[:, cur - 1]))
+                    e = _cw(got.reshape(-1), F @ xp + W[:, cur - 1], b, "x_%d" % cur)
+                    if e:
+                        v.append(("C16:trajectory-step-not-motion:user-model", "x_%d is not F x_%d + w_%d: %s" % (cur, cur - 1, cur - 1, e))); return v
+                seen.setdefault(cur, got)
+                last = got; cur += 1
+                if sensor:
+                    y = impl.get("meas%d" % k)
+                    if y is None or y.shape != (m, 1):
+                        v.append(("C16:sensor-measurement-shape:m=%d" % m, "after call %d measure() has shape %s" % (k, None if y is None else y.shape))); return v
+                    sd = np.sqrt(np.diag(R))
+                    resid = (y.reshape(-1) - got.reshape(-1)[idxs]) / sd
+                    R0 = R / np.outer(sd, sd)
+                    mh = float(resid @ np.linalg.solve(R0, resid))
+                    slack = float(np.linalg.norm(4 * EPS * np.abs(got.reshape(-1)[idxs]) / sd)) * math.sqrt(np.linalg.cond(R0))
+                    if not math.sqrt(mh) <= math.sqrt(MAHA_MAX) + slack:
+                        v.append(("C16:sensor-measurement-not-Hx-plus-noise:user-model", "call %d: measure() - H x_k has Mahalanobis length^2 %.6g under R (a draw of N(0, R) stays below %g)" % (k, mh, MAHA_MAX))); return v
+        elif op == "r":
+            if ret != 1:
+                v.append(("C16:trajectory-reset-refused", "setProperty(reset) returned %s" % ret))
+            cur = 0
+        elif ret != 0:
+            v.append(("C16:trajectory-unknown-property-accepted", "setProperty(other) returned %s" % ret))
+        if last is not None and (got is None or not np.array_equal(got, last)):
+            v.append(("C16:trajectory-not-served-in-order:user-model", "after call %d (%s) getData() is not the state served last" % (k, op))); return v
+        if last is None and impl.get("data%d_empty" % k) != 1:
+            v.append(("C16:trajectory-data-before-first-call", "getData() holds a value before the first successful bufferData()"))
+    return v
+
+
+def _grid_clauses(v, area, ctor4, nx, ny, rows, np_, ret, st0, w0, st, w, comps, where=""):
+    """the documented behaviour of one initialize() call on a set holding (st0, w0)"""
+    a = area
+    xi, xs, yi, ys = (0.0, a[1], 0.0, a[3]) if ctor4 else a
+    ok = np_ == nx * ny and rows == 4
+    if ret != int(ok):
+        v.append(("C16:grid-refusal" + ("" if rows == 4 else ":rows"), "%s%d particles with %d state rows for a %d x %d grid: initialize returned %s" % (where, np_, rows, nx, ny, ret)))
+        return
     if not ok:
-        if not np.array_equal(st, c.get("st0")) or not np.array_equal(w, c.get("w0")):
-            v.append(("C16:grid-refusal-modifies", "a refused initialisation changed the particle set"))
-        return v
+        if not np.array_equal(st, st0) or not np.array_equal(w, w0):
+            v.append(("C16:grid-refusal-modifies", "%sa refused initialisation changed the particle set" % where))
+        return
+    wantw = np.full((np_, 1), -math.log(np_))
     if min(nx, ny) < 2:
         # outside the property's domain: the code divides 0 by 0; only the correspondence check speaks about it
-        if w is None or w.shape != (np_, 1) or not _close(w, np.full((np_, 1), -math.log(np_)), 1e-14):
-            v.append(("C16:grid-weights", "weights are not -ln(%d)" % np_))
-        return v
+        if w is None or w.shape != (np_, 1) or _rel(w, wantw, 8 * EPS, "w"):
+            v.append(("C16:grid-weights", "%sweights are not -ln(%d)" % (where, np_)))
+        return
     want = np.zeros((4, np_))
     for i in range(nx):
         for j in range(ny):
             want[:, i * ny + j] = [xi + i * (xs - xi) / (nx - 1), 0.0, yi + j * (ys - yi) / (ny - 1), 0.0]
-    if st is None or st.shape != want.shape or not _close(st, want, 1e-13):
-        v.append(("C16:grid-positions", "particles are not on the %d x %d regular grid spanning [%g,%g] x [%g,%g] (max diff %.3g)" % (nx, ny, xi, xs, yi, ys, caseio.maxdiff(st, want))))
-    if w is None or w.shape != (np_, 1) or not _close(w, np.full((np_, 1), -math.log(np_)), 1e-14):
-        v.append(("C16:grid-weights", "weights are not -ln(%d)" % np_))
-    if impl.get("components") != np_:
-        v.append(("C16:grid-particle-count", "components = %s" % impl.get("components")))
+    e = _cw(st, want, _grid_bound(area, ctor4, 4, np_), "state")
+    if e:
+        v.append(("C16:grid-positions", "%sparticles are not on the %d x %d regular grid spanning [%g,%g] x [%g,%g] with zero velocities: %s" % (where, nx, ny, xi, xs, yi, ys, e)))
+    if w is None or w.shape != (np_, 1) or _rel(w, wantw, 8 * EPS, "w"):
+        v.append(("C16:grid-weights", "%sweights are not -ln(%d)" % (where, np_)))
+    if comps != np_:
+        v.append(("C16:grid-particle-count", "%scomponents = %s" % (where, comps)))
+
+
+def oracle_grid(c, impl, model):
+    v = []
+    _grid_clauses(v, c.get("area")[0], c.get("ctor4"), c.get("nx"), c.get("ny"), 4, c.get("np"), impl.get("ret"), c.get("st0"), c.get("w0"),
+                  impl.get("state"), impl.get("weight"), impl.get("components"))
     return v
 
 
+def oracle_gridseq(c, impl, model):
+    v = []
+    for k in range(c.get("steps")):
+        t = str(k)
+        si, i = c.get("set" + t), c.get("init" + t)
+        _grid_clauses(v, c.get("area%d" % i)[0], c.get("ctor4_%d" % i), c.get("nx%d" % i), c.get("ny%d" % i), c.get("rows%d" % si), c.get("np%d" % si),
+                      impl.get("ret" + t), impl.get("pre_state" + t), impl.get("pre_weight" + t), impl.get("state" + t), impl.get("weight" + t),
+                      impl.get("components" + t), "call %d (initialiser %d, set %d): " % (k, i, si))
+        if c.get("fill" + t) and (not np.array_equal(impl.get("pre_state" + t), c.get("st" + t)) or not np.array_equal(impl.get("pre_weight" + t), c.get("w" + t))):
+            v.append(("C16:harness", "call %d: the particle set does not hold what the harness wrote into it" % k))
+        if v:
+            break
+    return v
+
+
+CONC_WHAT = {"linmodel": "sensor models", "sim": "simulated trajectories", "sensor": "simulated sensors", "gridseq": "grid initialisers"}
+
+
 def oracle(c, impl, model):
+    v = _oracle(c, impl, model)
+    if c.kind in CONC_WHAT and impl.has("concurrent_ok") and impl.get("concurrent_ok") != 1:
+        v.append(("C16:objects-interfere-across-threads:%s" % c.kind, "three %s with their own parameters and seeds, used from three threads, do not return their sequential results" % CONC_WHAT[c.kind]))
+    return v
+
+
+def _oracle(c, impl, model):
     if c.kind == "wna":
         return oracle_wna(c, impl, model)
     if c.kind == "wna_stat":
@@ -806,6 +1523,10 @@ def oracle(c, impl, model):
         return oracle_sim(c, impl, model)
     if c.kind == "grid":
         return oracle_grid(c, impl, model)
+    if c.kind == "gridseq":
+        return oracle_gridseq(c, impl, model)
+    if c.kind == "ltisim":
+        return oracle_ltisim(c, impl, model)
     return []
 
 
@@ -831,6 +1552,12 @@ def on_crash(c, info, model):
         return [("C16:trajectory-read-past-end", detail)]
     if entry in ("LinearModel::LinearModel", "SimulatedLinearSensor::SimulatedLinearSensor") and block:
         return [("C16:selector-validation:Index-accepted", detail)]
+    if entry == "InitSurveillanceAreaGrid::initialize":
+        return [("C16:grid-refusal:rows" if c.kind == "gridseq" else "C16:grid-positions", detail)]
+    if entry.startswith("WhiteNoiseAcceleration::motion"):
+        return [("C16:motion-shape:Dim=%s" % dn, detail)]
+    if entry.startswith("WhiteNoiseAcceleration::getTransitionProbability"):
+        return [("C16:transition-density-shape:Dim=%s" % dn, detail)]
     if entry == "WhiteNoiseAcceleration::getTransitionProbability":
         return [("C16:transition-density-shape:Dim=%s" % dn, detail)]
     return None
@@ -840,26 +1567,37 @@ def histogram(cases):
     h = {}
     for c in cases:
         if c.kind == "wna":
-            key = "wna Dim=%s" % c.meta["dim"]
+            key = "wna Dim=%s T~1e%+03d" % (c.meta["dim"], 3 * (gen.decade(float(c.meta["T"])) // 3))
+            for o in set(str(c.meta.get("ops", ""))) & set("sbucav"):
+                h["wna op %s" % o] = h.get("wna op %s" % o, 0) + 1
+            for f in ("intrude", "conc"):
+                if str(c.meta.get(f)) == "1":
+                    h["wna %s" % f] = h.get("wna %s" % f, 0) + 1
         elif c.kind in ("lti_state", "lti_meas", "linmodel"):
             key = "%s %s" % (c.kind, expected_outcome(c))
         elif c.kind in ("sim", "sensor"):
             key = "%s len<=%d" % (c.kind, 10 * ((int(c.meta["len"]) + 9) // 10))
+            hk = "%s history %s" % (c.kind, c.meta.get("hist", "random"))
+            h[hk] = h.get(hk, 0) + 1
+        elif c.kind == "gridseq":
+            key = "gridseq steps=%s" % c.meta.get("steps")
+        elif c.kind == "ltisim":
+            key = "ltisim lin=%s circ=%s sensor=%s" % (c.meta.get("lin"), c.meta.get("circ"), c.meta.get("sensor"))
         elif c.kind == "grid":
             key = "grid ok=%s" % c.meta["ok"] + (" degenerate" if min(int(c.meta["nx"]), int(c.meta["ny"])) < 2 else "")
         else:
             key = c.kind
         h[key] = h.get(key, 0) + 1
-    h.update(STATS)          # factor probes run / rejected for an ill-conditioned probe matrix (cond > 1e6)
+    h.update({k: (round(x, 4) if isinstance(x, float) else x) for k, x in STATS.items()})    # probes run / rejected, density pairs judged / excluded, worst measured difference / bound
     return h
 
 
 LEVEL_TEXT = ("Proof: the models of WhiteNoiseAcceleration (F, Q, LDLT-based sampling, motion, transition density), of the LTI / LinearModel "
-              "constructors, of SimulatedStateModel / SimulatedLinearSensor and of InitSurveillanceAreaGrid are proved, for every real field and "
-              "all sizes, call sequences and trajectory lengths, to have the documented closed forms (block-diagonal F and Q, Q SPD, samples L Z of "
-              "the state dimension with L Z Z^T L^T = Q, N(cur; F prev, Q), exact constructor rejection classes, 0/1 selector, H x_k + L_R z, "
-              "in-order serving with the end reported, regular grid with uniform weights). The models are tied to the code by running the "
-              "extracted model and the library on the same generated cases.")
-LEVEL_NOTE = ("Trusted: Coq kernel, MathComp, extraction + float driver, list instance of the matrix interface, harness (RNG mirror, factor "
-              "observation) and tolerances; rounding is not modelled; the tie to the code is sampled. Distributional claims reduce to the "
-              "algebraic identity plus the stated RNG assumption.")
+              "constructors, of SimulatedStateModel / SimulatedLinearSensor (over the shipped model and over any user-defined additive linear model) and of "
+              "InitSurveillanceAreaGrid are proved, for every real field and all sizes, call sequences and trajectory lengths, to have the documented closed forms "
+              "(block-diagonal F and Q, Q SPD, samples L Z of the state dimension with L Z Z^T L^T = Q, N(cur; F prev, Q), exact constructor rejection classes, 0/1 selector, "
+              "H x_k + L_R z, in-order serving with the end reported, regular grid with uniform weights, refusal of wrong counts and of states that are not 4 rows). "
+              "Every extracted entry point is proved to represent the MathComp model of those theorems (C16_executed_*, axiom-free). The models are tied to the code by "
+              "running the extracted model and the library on the same generated cases.")
+LEVEL_NOTE = ("Trusted: Coq kernel, MathComp, extraction + float driver, harness (RNG mirror, factor observation, reference objects, thread / re-entrancy probes) "
+              "and tolerances; rounding is not modelled; the tie to the code is sampled. Distributional claims reduce to the algebraic identity plus the stated RNG assumption.")
